@@ -1,8 +1,8 @@
 #!/usr/bin/env bash
 # thorough-only extra legs for C07: Miri (identity/gzip/deflate) then valgrind memcheck (zstd)
 D="$(dirname "$0")"; rc=0
-"$D/miri.sh" C07 "$1" 1/200 8; a=$?
-"$D/memcheck.sh" C07 "$1" 1/100; b=$?
+"$D/miri.sh" C07 "$1" 1/800 8; a=$?
+"$D/memcheck.sh" C07 "$1" 1/400; b=$?
 if [ $a -eq 1 ] || [ $b -eq 1 ]; then exit 1; fi
 if [ $a -ne 0 ] || [ $b -ne 0 ]; then exit 3; fi
 exit 0
